@@ -134,6 +134,7 @@ var subC14Count = harness.NewSub("c14-ssrc-count-octet", func(c c14Count, d harn
 })
 
 func TestC14(t *testing.T) {
+	defer harness.Uncaught(t)
 	// (1) decode: all 64 x 2^18 pairs, sharded by exponent
 	lo, hi := harness.ShardRange(64)
 	var n1 int64
